@@ -41,6 +41,22 @@ def PPath.parent (p : PPath) : PPath := ⟨p.abs, p.comps.dropLast⟩
 /-- `a / b`: an absolute right operand replaces the left one. -/
 def PPath.join (a b : PPath) : PPath := if b.abs then b else ⟨a.abs, a.comps ++ b.comps⟩
 
+/-- `~/…` literal (hpath_expression): `self.path.startswith("~/")`. -/
+def isHome (t : Text) : Bool := (['~', '/'] : Text).isPrefixOf t
+
+/-- `p.expanduser()`, `home` being `Path(os.path.expanduser("~"))` (the value of `$HOME`, or the
+    password database's entry when it is unset): a relative path whose first component is exactly
+    `~` gets that component replaced by the home path (anchor included); `~user` needs the password
+    database, which is outside the model; every other path is returned as it is. -/
+def PPath.expanduser (p home : PPath) : Except Err PPath :=
+  if p.abs then .ok p
+  else match p.comps with
+    | [] => .ok p
+    | c :: rest =>
+      if c == ['~'] then .ok ⟨home.abs, home.comps ++ rest⟩
+      else if c.head? == some '~' then .error (.internal "pwd")
+      else .ok p
+
 /-! ## Values and files -/
 
 /-- Argument of an `import` application, as far as `_resolve_argument`/`_follow_import` look at it. -/
@@ -151,9 +167,12 @@ def resolveArg : Arg → Arg
 def isAngle (t : Text) : Bool := t.head? == some '<' && t.getLast? == some '>'
 
 /-- `NixPath.resolved_path`, `src` being the `source_path` captured by `NixPath.from_cst` from the
-    context variable that `parse_file` set (the path `parse_file` was called with, as spelled). -/
-def resolvedPath (t : Text) (src : Option PPath) : Except Err PPath :=
+    context variable that `parse_file` set (the path `parse_file` was called with, as spelled) and
+    `home` what `Path.home()` is when the method runs. A `~/` literal is anchored at the home
+    directory whatever `src` is. -/
+def resolvedPath (t : Text) (src : Option PPath) (home : PPath) : Except Err PPath :=
   if isAngle t then .error .value
+  else if isHome t then (parsePath t).expanduser home
   else
     let r := parsePath t
     match src with
@@ -180,88 +199,91 @@ def enterFile (fs : FS) (cwd : List Comp) (r : PPath) (k : Text) : Except Err Va
 
 /-- `v[k1][k2]…` on a value that came out of a file parsed under `source_path = src`.
     Every key follows at most one import hop, so cyclic imports do not loop: they are simply
-    followed again, once per key. -/
-def implGet (fs : FS) (cwd : List Comp) : Option PPath → Val → List Text → Except Err Val
+    followed again, once per key. `home` is the process's home path (constant during the lookup). -/
+def implGet (fs : FS) (home : PPath) (cwd : List Comp) : Option PPath → Val → List Text → Except Err Val
   | _, v, [] => .ok v
   | _, .lit _, _ :: _ => .error .type              -- 'IntegerPrimitive' object is not subscriptable
   | src, .set bs, k :: ks =>
     match getKey bs k with
-    | .ok v => implGet fs cwd src v ks
+    | .ok v => implGet fs home cwd src v ks
     | .error e => .error e
   | src, .imp a, k :: ks =>
     match resolveArg a with
     | .path t =>
-      match resolvedPath t src with
+      match resolvedPath t src home with
       | .error e => .error e
       | .ok r =>
         match enterFile fs cwd r k with
-        | .ok v => implGet fs cwd (some r) v ks
+        | .ok v => implGet fs home cwd (some r) v ks
         | .error e => .error e
     | _ => .error .type                             -- "Import following requires a NixPath argument"
 
-/-- `parse_file(entry)[k][k1][k2]…` under working directory `cwd`. -/
-def implLookup (fs : FS) (cwd : List Comp) (entry : Text) (k : Text) (ks : List Text) : Except Err Val :=
+/-- `parse_file(entry)[k][k1][k2]…` under working directory `cwd` and home path `home`. -/
+def implLookup (fs : FS) (home : PPath) (cwd : List Comp) (entry : Text) (k : Text) (ks : List Text) :
+    Except Err Val :=
   let p := parsePath entry
   match enterFile fs cwd p k with
-  | .ok v => implGet fs cwd (some p) v ks
+  | .ok v => implGet fs home cwd (some p) v ks
   | .error e => .error e
 
 /-! ## The specification: every hop is resolved against the directory of the file that contains
-the literal, files being identified by their canonical location. -/
-
-/-- `~/…` literal (hpath_expression): Nix resolves it against the home directory. -/
-def isHome (t : Text) : Bool := t.take 2 == ['~', '/']
+the literal, files being identified by their canonical location; a `~/x` literal is `$HOME/x`. -/
 
 /-- Where the property says the literal `t`, written in the file at `file`, points.
-    `home = some h`: Nix's reading of `~/x` (relative to the home directory `h`);
-    `home = none`: `~/x` read like any other relative literal (what the code does). -/
-def specTarget (fs : FS) (home : Option (List Comp)) (file : List Comp) (t : Text) :
+    `~/x` is Nix's home-relative path: the text of `$HOME` (the pure path `home`, whatever it is —
+    the OS resolves it, from the working directory should it be relative) followed by `/x`;
+    the importing file plays no part. `Props/C17.lean: home_literal_in_home_directory` shows that
+    for a canonical home directory `h` this is resolution of `x` from `h`. -/
+def specTarget (fs : FS) (home : PPath) (cwd : List Comp) (file : List Comp) (t : Text) :
     Except Err (List Comp) :=
   if isAngle t then .error .value
-  else match home, isHome t with
-    | some h, true => fs.locateFrom h (parsePath (t.drop 2)).comps
-    | _, _ =>
-      let p := parsePath t
-      fs.locateFrom (if p.abs then [] else file.dropLast) p.comps
+  else if isHome t then fs.locate cwd ⟨home.abs, home.comps ++ (parsePath (t.drop 2)).comps⟩
+  else
+    let p := parsePath t
+    fs.locateFrom (if p.abs then [] else file.dropLast) p.comps
 
 def specEnter (fs : FS) (n : List Comp) (k : Text) : Except Err Val :=
   match topSet (fs.content n) with
   | .error e => .error e
   | .ok bs => getKey bs k
 
-def specGet (fs : FS) (home : Option (List Comp)) : List Comp → Val → List Text → Except Err Val
+def specGet (fs : FS) (home : PPath) (cwd : List Comp) : List Comp → Val → List Text → Except Err Val
   | _, v, [] => .ok v
   | _, .lit _, _ :: _ => .error .type
   | file, .set bs, k :: ks =>
     match getKey bs k with
-    | .ok v => specGet fs home file v ks
+    | .ok v => specGet fs home cwd file v ks
     | .error e => .error e
   | file, .imp a, k :: ks =>
     match resolveArg a with
     | .path t =>
-      match specTarget fs home file t with
+      match specTarget fs home cwd file t with
       | .error e => .error e
       | .ok n =>
         match specEnter fs n k with
-        | .ok v => specGet fs home n v ks
+        | .ok v => specGet fs home cwd n v ks
         | .error e => .error e
     | _ => .error .type
 
 /-- Lookup starting in the file at canonical location `file`. -/
-def specLookup (fs : FS) (home : Option (List Comp)) (file : List Comp) (k : Text) (ks : List Text) :
+def specLookup (fs : FS) (home : PPath) (cwd : List Comp) (file : List Comp) (k : Text) (ks : List Text) :
     Except Err Val :=
   match specEnter fs file k with
-  | .ok v => specGet fs home file v ks
+  | .ok v => specGet fs home cwd file v ks
   | .error e => .error e
 
 /-- The whole specification: locate the entry the way the OS does, then `specLookup`. -/
-def specFrom (fs : FS) (home : Option (List Comp)) (cwd : List Comp) (entry : Text) (k : Text)
+def specFrom (fs : FS) (home : PPath) (cwd : List Comp) (entry : Text) (k : Text)
     (ks : List Text) : Except Err Val :=
   match fs.locate cwd (parsePath entry) with
-  | .ok file => specLookup fs home file k ks
+  | .ok file => specLookup fs home cwd file k ks
   | .error e => .error e
 
-/-! ## Side condition of the partial theorem: no `~/` literal anywhere in the filesystem. -/
+/-- A canonical absolute location: no `.` and no `..` among the components. -/
+def canonical (p : List Comp) : Bool := p.all fun c => !(c == ['.'] || c == ['.', '.'])
+
+/-! ## Filesystems without any `~/` literal (there the home path plays no part:
+`Props/C17.lean: home_irrelevant_without_home_literals`). -/
 
 def Arg.noHome : Arg → Bool
   | .path t => !isHome t
@@ -300,6 +322,7 @@ inductive PExpr where
   | cwd                     -- `Path.cwd()` / `Path(".").resolve()` (not used by the current code)
   | parent (e : PExpr)      -- `e.parent`
   | join (a b : PExpr)      -- `a / b`
+  | expanduser (e : PExpr)  -- `e.expanduser()`
 deriving DecidableEq, Repr
 
 inductive PCond where
@@ -311,62 +334,83 @@ inductive PCond where
   | and (a b : PCond)
 deriving DecidableEq, Repr
 
-/-- `resolved_path` in normal form: raise sites in order, then `if cond then a else b`. -/
+/-- `resolved_path` in normal form: raise sites in order, then the early returns
+    (`if c: return e`) in order, then `if cond then a else b`. -/
 structure Recipe where
   guards : List (PCond × Err)
+  early : List (PCond × PExpr)
   cond : PCond
   thenE : PExpr
   elseE : PExpr
 deriving DecidableEq, Repr
 
-def PExpr.eval (t : Text) (src : Option PPath) (cwd : PPath) : PExpr → Except Err PPath
+def PExpr.eval (t : Text) (src : Option PPath) (home cwd : PPath) : PExpr → Except Err PPath
   | .ofText => .ok (parsePath t)
   | .src => match src with
     | some s => .ok s
     | none => .error (.internal "AttributeError")
   | .cwd => .ok cwd
-  | .parent e => match e.eval t src cwd with
+  | .parent e => match e.eval t src home cwd with
     | .ok p => .ok p.parent
     | .error e => .error e
-  | .join a b => match a.eval t src cwd, b.eval t src cwd with
+  | .join a b => match a.eval t src home cwd, b.eval t src home cwd with
     | .ok x, .ok y => .ok (x.join y)
     | .error e, _ => .error e
     | _, .error e => .error e
+  | .expanduser e => match e.eval t src home cwd with
+    | .ok p => p.expanduser home
+    | .error e => .error e
 
-def PCond.eval (t : Text) (src : Option PPath) (cwd : PPath) : PCond → Except Err Bool
-  | .isAbs e => match e.eval t src cwd with
+def PCond.eval (t : Text) (src : Option PPath) (home cwd : PPath) : PCond → Except Err Bool
+  | .isAbs e => match e.eval t src home cwd with
     | .ok p => .ok p.abs
     | .error e => .error e
   | .srcSome => .ok src.isSome
   | .startsWith s => .ok (s.isPrefixOf t)
   | .endsWith s => .ok (s.reverse.isPrefixOf t.reverse)
-  | .not c => match c.eval t src cwd with
+  | .not c => match c.eval t src home cwd with
     | .ok b => .ok !b
     | .error e => .error e
-  | .and a b => match a.eval t src cwd with     -- Python `and` short-circuits
-    | .ok true => b.eval t src cwd
+  | .and a b => match a.eval t src home cwd with     -- Python `and` short-circuits
+    | .ok true => b.eval t src home cwd
     | .ok false => .ok false
     | .error e => .error e
 
-def Recipe.runGuards (t : Text) (src : Option PPath) (cwd : PPath) : List (PCond × Err) → Except Err Unit
+def Recipe.runGuards (t : Text) (src : Option PPath) (home cwd : PPath) :
+    List (PCond × Err) → Except Err Unit
   | [] => .ok ()
-  | (c, err) :: rest => match c.eval t src cwd with
+  | (c, err) :: rest => match c.eval t src home cwd with
     | .ok true => .error err
-    | .ok false => Recipe.runGuards t src cwd rest
+    | .ok false => Recipe.runGuards t src home cwd rest
     | .error e => .error e
 
-def Recipe.eval (r : Recipe) (t : Text) (src : Option PPath) (cwd : PPath) : Except Err PPath :=
-  match Recipe.runGuards t src cwd r.guards with
+/-- The early returns in order: the first whose condition holds decides; `none` = fall through. -/
+def Recipe.runEarly (t : Text) (src : Option PPath) (home cwd : PPath) :
+    List (PCond × PExpr) → Except Err (Option PPath)
+  | [] => .ok none
+  | (c, e) :: rest => match c.eval t src home cwd with
+    | .ok true => match e.eval t src home cwd with
+      | .ok p => .ok (some p)
+      | .error err => .error err
+    | .ok false => Recipe.runEarly t src home cwd rest
+    | .error err => .error err
+
+def Recipe.eval (r : Recipe) (t : Text) (src : Option PPath) (home cwd : PPath) : Except Err PPath :=
+  match Recipe.runGuards t src home cwd r.guards with
   | .error e => .error e
-  | .ok () => match r.cond.eval t src cwd with
-    | .ok true => r.thenE.eval t src cwd
-    | .ok false => r.elseE.eval t src cwd
+  | .ok () => match Recipe.runEarly t src home cwd r.early with
     | .error e => .error e
+    | .ok (some p) => .ok p
+    | .ok none => match r.cond.eval t src home cwd with
+      | .ok true => r.thenE.eval t src home cwd
+      | .ok false => r.elseE.eval t src home cwd
+      | .error e => .error e
 
 /-- The recipe the model's `resolvedPath` implements (`Props/C17.lean`: `recipe_sound` proves
     that, `tie_resolved_path` proves the Python source still has exactly this recipe). -/
 def recipeModel : Recipe where
   guards := [(.and (.endsWith ['>']) (.startsWith ['<']), .value)]
+  early := [(.startsWith ['~', '/'], .expanduser .ofText)]
   cond := .and (.not (.isAbs .ofText)) .srcSome
   thenE := .join (.parent .src) .ofText
   elseE := .ofText
